@@ -172,7 +172,7 @@ func Containers() []Named {
 		N("[][]int", [][]int{{1}, {2, 3}}), N("[]Thing", []Thing{th}), N("[]*Thing", []*Thing{&th, nil}), N("[]interface{}", []interface{}{nil, 1}),
 		N("map[string]Value", m), N("*map[string]Value", &m), N("map[string]int nil", nilMap), N("map[string]Value nil", nilValMap), N("[]Value nil", nilValSlice), N("map[string]int{}", map[string]int{}), N("map[string]string", map[string]string{"k": "v", "1": "one"}),
 		N("map[int]string", map[int]string{1: "one", 2: "two"}), N("map[float64]int", map[float64]int{1.5: 15, 2: 20}), N("map[float64]int{NaN}", map[float64]int{math.NaN(): 1, 2: 20}), N("map[bool]int", map[bool]int{true: 1}),
-		N("map[Value]Value", map[stick.Value]stick.Value{"s": 1, 2: "two", true: 3}), N("map[uint8]int", map[uint8]int{200: 1}), N("map[ValStringer]int", map[ValStringer]int{{"k"}: 1}),
+		N("map[Value]Value", map[stick.Value]stick.Value{"s": 1, 2: "two", true: 3}), N("map[Value]Value{nil}", map[stick.Value]stick.Value{nil: "at-nil", "s": 1}), N("*map[Stringer]int{nil}", &map[stick.Stringer]int{nil: 7, ValStringer{"k"}: 8}), N("map[uint8]int", map[uint8]int{200: 1}), N("map[ValStringer]int", map[ValStringer]int{{"k"}: 1}),
 		N("map[string][]int", map[string][]int{"l": {1, 2}}), N("map[string]map", map[string]map[string]int{"o": {"i": 1}}),
 		N("Thing", th), N("*Thing", &th), N("**Thing", func() **Thing { p := &th; return &p }()),
 		N("nil *[]int", nilPtrSlice), N("nil *map", nilPtrMap), N("nil *Thing", nilPtrThing),
@@ -204,6 +204,8 @@ func Keys() []Named {
 		// strings that strconv.ParseFloat accepts but that are no usable index
 		N("'NaN'", "NaN"), N("'nan'", "nan"), N("'Inf'", "Inf"), N("'-Inf'", "-Inf"), N("'+Infinity'", "+Infinity"), N("'1e400'", "1e400"), N("'0x1'", "0x1"), N("'0x1p-2'", "0x1p-2"),
 		N("'1e0'", "1e0"), N("'1.0'", "1.0"), N("' 1'", " 1"), N("'-0'", "-0"), N("'1_0'", "1_0"),
+		// fractions next to the ends of the index range: below zero is out of range however little
+		N("-0.5", -0.5), N("'-0.25'", "-0.25"), N("-0.999", -0.999), N("-1e-9", -1e-9), N("2.999", 2.999), N("'2.5'", "2.5"), N("0.999", 0.999), N("float32(-0.5)", float32(-0.5)),
 		N("0", 0), N("1", 1), N("2", 2), N("3", 3), N("-1", -1), N("100", 100), N("f1", 1.0), N("f1.5", 1.5), N("f2", 2.0), N("nan", math.NaN()), N("inf", math.Inf(1)), N("1e30", 1e30),
 		N("true", true), N("false", false), N("nil", nil), N("nilptr", nilPtr), N("uint8(200)", uint8(200)), N("int64(1)", int64(1)),
 		N("[]int", []int{1}), N("map", map[string]int{"a": 1}), N("stringer-k", ValStringer{"k"}), N("safe-a", stick.NewSafeValue("a", "html")), N("func", func() {}),
@@ -233,6 +235,14 @@ type (
 // KindText is what the Kind* values print as (set by the single goroutine that renders with them).
 var KindText string
 
+// KindSlice and KindMap are container types with a String method: they print as what the method says.
+type (
+	KindSlice []int
+	KindMap   map[string]int
+)
+
+func (KindSlice) String() string { return KindText }
+func (KindMap) String() string   { return KindText }
 func (KindInt) String() string   { return KindText }
 func (KindBool) String() string  { return KindText }
 func (KindFloat) String() string { return KindText }
@@ -270,6 +280,7 @@ type (
 	NamedU8    uint8
 	NamedI64   int64
 	NamedU64   uint64
+	NamedUptr  uintptr
 	NamedBool  bool
 	NamedSlice []int
 	NamedMap   map[string]int
